@@ -323,7 +323,8 @@ RET_TEXT = {"u64": " -> u64", "unit": "", "refarg": " -> &'a u64", "refdeps": " 
             "boolr": " -> bool", "u8r": " -> u8", "u32r": " -> u32", "i32r": " -> i32", "usizer": " -> usize",
             "iter": " -> impl Iterator<Item = u64>", "tuple2": " -> (u64, u64)", "arr2r": " -> [u64; 2]", "range": " -> std::ops::Range<u64>",
             "implfn": " -> impl Fn(u64) -> u64", "optt": " -> Option<Tracked>", "resunit": " -> Result<(), u64>",
-            "vecr": " -> Vec<u64>", "stringr": " -> String", "implfut": " -> impl std::future::Future<Output = u64>",
+            "vecr": " -> Vec<u64>", "stringr": " -> String", "boxr": " -> Box<u64>", "arcr": " -> std::sync::Arc<u64>",
+            "resvec": " -> Result<Vec<u64>, String>", "boxfut": " -> std::pin::Pin<Box<dyn std::future::Future<Output = u64> + Send>>", "implfut": " -> impl std::future::Future<Output = u64>",
             "implfut_drop": " -> impl std::future::Future<Output = u64> + Send"}
 
 
@@ -383,6 +384,18 @@ def ret_tail(fn, ch, depsb=None):
     elif fn.ret == "stringr":
         lines.append(f"let __r = sim::exit(__f, &[{ch}]);")
         lines.append("sim::spare_string(__r)")
+    elif fn.ret == "boxr":
+        lines.append(f"let __r = sim::exit(__f, &[{ch}]);")
+        lines.append("sim::declared(|| Box::new(__r))")
+    elif fn.ret == "arcr":
+        lines.append(f"let __r = sim::exit(__f, &[{ch}]);")
+        lines.append("sim::declared(|| std::sync::Arc::new(__r))")
+    elif fn.ret == "resvec":
+        lines.append(f"let __r = sim::exit(__f, &[{ch}]);")
+        lines.append("Ok(sim::spare_vec(__r))")
+    elif fn.ret == "boxfut":
+        lines.append(f"let __r = sim::exit(__f, &[{ch}]);")
+        lines.append("sim::declared(|| Box::pin(std::future::ready(__r)) as std::pin::Pin<Box<dyn std::future::Future<Output = u64> + Send>>)")
     elif fn.ret in ("implfut", "implfut_drop"):
         # a NON-async function that does its work when called and hands back a ready future
         lines.append(f"let __r = sim::exit(__f, &[{ch}]);")
@@ -664,9 +677,23 @@ single(Fn("conc_ret", ("concrete", ["ConcDep"]), ["refa", "u64"], ret="refarg", 
 single(Fn("aconc2", ("concrete", ["ConcDep"]), ["u64", "u64"], is_async=True, props=("C01",)))
 for n in ("conc2", "conc_ret", "aconc2"):
     ALL_FNS[n].recv_kind = "conc"
+# concrete dependency types of other shapes (path, generic instantiation, tuple)
+for _nm, _ty, _h in (("conc_path", "crate::corpus::ConcDep", "conc_impl"), ("conc_gen", "ConcWrap<u64>", "conc_gen_impl"), ("conc_tup", "(ConcDep, u64)", "conc_tup_impl")):
+    _f = single(Fn(_nm, ("concrete", [_ty]), ["u64", "u64"], props=("C01",)))
+    _f.conc_handle = _h
+    _f2 = single(Fn("a" + _nm, ("concrete", [_ty]), ["u64", "u64"], is_async=True, props=("C01",)))
+    _f2.conc_handle = _h
 # by-value dependency
 single(Fn("byval2", ("byval", ["F0"]), ["u64", "u64"], calls=["f0"]))
 ALL_FNS["byval2"].recv_kind = "byval"
+single(Fn("byval0", ("byval", ["F0"]), []))
+single(Fn("byval3", ("byval", ["F0", "F1"]), ["u64", "tracked", "u64"], calls=["f1"]))
+single(Fn("abyval2", ("byval", ["Af0", "Send"]), ["u64", "u64"], is_async=True, calls=["af0"]))
+# the `mockall` option (test-gated derive; what matters here is that the impl targets Impl<T> only)
+single(Fn("ml_a", ("impl", ["F0"]), ["u64", "u64"], opts="mockall", calls=["f0"]))
+single(Fn("ml_b", ("nodeps", []), ["u64", "u64"], opts="no_deps, mockall"))
+single(Fn("aml_c", ("impl", ["Af0"]), ["u64", "u64"], opts="mockall, ?Send", is_async=True, send=False))
+module("mml", "Mml", [Fn("mml_a", ("impl", ["F0"]), ["u64", "u64"]), Fn("mml_b", ("impl", ["F0"]), ["u64", "u64"])], opts="mockall")
 
 # ---- section mod (C01) ----------------------------------------------------
 module("m3", "M3", [
@@ -857,7 +884,7 @@ for _m in range(12):
 
 
 # ==== owned buffers with spare capacity, sync fns returning futures, deep chains ==
-for _r in ("vecr", "stringr"):
+for _r in ("vecr", "stringr", "boxr", "arcr", "resvec", "boxfut"):
     single(Fn(f"own_{_r}", ("impl", ["F0"]), ["u64", "u64"], ret=_r, calls=["f0"], props=("C01", "C14")))
     single(Fn(f"aown_{_r}", ("impl", ["Af0"]), ["u64", "u64"], ret=_r, is_async=True, calls=["af0"], props=("C01", "C14")))
     single(Fn(f"ndown_{_r}", ("nodeps", []), ["u64"], opts="no_deps", ret=_r, props=("C01", "C14")))
@@ -1713,12 +1740,15 @@ pub struct Prov {{
 pub struct ConcDep {{
     pub pad: u64,
 }}
+pub struct ConcWrap<T>(pub T);
 /// Application type; `K` selects the delegation targets (0 = A, 1 = B).
 pub struct App<const K: u16> {{
     pub id: u64,
     pub slot: u64,
     pub conc_dep: ConcDep,
     pub conc_impl: Impl<ConcDep>,
+    pub conc_gen_impl: Impl<ConcWrap<u64>>,
+    pub conc_tup_impl: Impl<(ConcDep, u64)>,
 {fields}}}
 pub type AppA = App<0>;
 pub type AppB = App<1>;
@@ -1729,6 +1759,8 @@ impl<const K: u16> App<K> {{
             slot: 77_000 + K as u64,
             conc_dep: ConcDep {{ pad: 1 }},
             conc_impl: Impl::new(ConcDep {{ pad: 2 }}),
+            conc_gen_impl: Impl::new(ConcWrap(5u64)),
+            conc_tup_impl: Impl::new((ConcDep {{ pad: 3 }}, 4)),
 {inits}        }}
     }}
 }}
@@ -1792,6 +1824,12 @@ def ret_fp(fn):
         return "{ let x = __r.first().copied().unwrap_or(u64::MAX); sim::masked(|| drop(__r)); x }"
     if fn.ret == "stringr":
         return "{ let x = sim::str_fp(&__r); sim::masked(|| drop(__r)); x }"
+    if fn.ret in ("boxr", "arcr"):
+        return "{ let x = *__r; sim::masked(|| drop(__r)); x }"
+    if fn.ret == "resvec":
+        return "{ let v = __r.unwrap_or_default(); let x = v.first().copied().unwrap_or(u64::MAX); sim::masked(|| drop(v)); x }"
+    if fn.ret == "boxfut":
+        return "{ let mut f = __r; let x = sim::poll_ready(f.as_mut()).unwrap_or(u64::MAX); sim::masked(|| drop(f)); x }"
     if fn.ret == "implfut":
         return "sim::poll_ready(__r).unwrap_or(u64::MAX)"
     if fn.ret == "implfut_drop":
@@ -1809,7 +1847,8 @@ def plain_calls(fn):
     if form == "nodeps":
         return (f"app.{fn.name}({{args}})", f"{path}({{args}})", "0")
     if form == "concrete":
-        return (f"app.conc_impl.{fn.name}({{args}})", f"{path}(app.conc_impl.as_ref(), {{args}})", "sim::addr(&app.conc_impl)")
+        h = getattr(fn, "conc_handle", "conc_impl")
+        return (f"app.{h}.{fn.name}({{args}})", f"{path}(app.{h}.as_ref(), {{args}})", f"sim::addr(&app.{h})")
     if form == "byval":
         return (f"Impl::new(SmallApp {{ token: v[7] }}).{fn.name}({{args}})",
                 f"{path}(Impl::new(SmallApp {{ token: v[7] }}), {{args}})", "v[7] as usize")
